@@ -376,6 +376,10 @@ MINI = [["cell", "bus", 1, "name", "s_1"], ["cell", "bus", 2, "cust_s", "s_nan"]
         ["index", "bus", "gap"], ["index", "line", "perm"], ["index", "load", "perm"], ["geo", "bus", 2, "none"], ["results"]]
 
 
+SEQ_MENU = [["col", "bus", "stringNA"], ["col", "load", "Int64"], ["cell", "bus", 1, "name", "s_1"], ["cell", "bus", 2, "cust_f", "f_third"],
+            ["attr", "name", "s_module"], ["index", "bus", "gap"], ["index", "line", "perm"], ["results"]]
+
+
 def pairs(menu_):
     """all unordered pairs of deviations that write different slots"""
     out = []
